@@ -2,6 +2,7 @@
 The same source is (a) executed natively when a counterexample is replayed and
 (b) unfolded symbolically (with fuel) by the VC generator."""
 from pyvc.sym import INT, BOOL, STR, CHAR, VAL, SEQ
+from pyvc.native import implies, forall_int, exists_int  # noqa (native meaning; symbolic meaning is built in)
 from . import W
 
 
